@@ -3,6 +3,7 @@ package rules
 import (
 	"fmt"
 	"go/ast"
+	"go/token"
 	"go/types"
 	"sort"
 	"strings"
@@ -563,31 +564,138 @@ func runC03(p *core.Prog, r *core.Report, tier string) {
 		r.Floor("C03.l scheduler name test/insert pairs", nAt, 2)
 	}
 
-	// ---- (m) the current slot and epoch are the ones that have started: elapsed time is truncated, never rounded
-	// (rounded up, "now" lies before the start of the "current" slot, and the job for that slot is never made) ----
+	// ---- (n) "now" is read after the beacon node has answered: a current-slot/epoch reading that decides which
+	// slots still get a job is not taken before a request to a beacon node whose answer it is compared with (the
+	// answer can take a slot or more; the stale reading then lets the slot under way, or past slots, get jobs) ----
 	{
-		nTime, nRound := 0, 0
-		for _, f := range p.FuncsIn("services/chaintime/standard") {
+		nClock := 0
+		for _, f := range fns {
+			var clocks []*ssa.Call
+			var slow []ssa.Instruction
 			core.EachInstr(f, func(in ssa.Instruction) {
 				c, ok := in.(*ssa.Call)
-				if !ok {
+				if !ok || !c.Call.IsInvoke() {
 					return
 				}
-				n := core.CalleeName(&c.Call)
-				if strings.HasSuffix(n, "time.Since") || strings.HasSuffix(n, "time.Now") || strings.HasSuffix(n, "time.Time.Sub") {
-					nTime++
+				recvT := c.Call.Value.Type().String()
+				switch {
+				case strings.HasSuffix(recvT, "chaintime.Service") && (c.Call.Method.Name() == "CurrentSlot" || c.Call.Method.Name() == "CurrentEpoch"):
+					clocks = append(clocks, c)
+				case strings.Contains(recvT, "go-eth2-client."):
+					slow = append(slow, in)
 				}
-				if strings.HasSuffix(n, "time.Duration.Round") || strings.HasSuffix(n, "time.Time.Round") || strings.HasSuffix(n, "math.Round") || strings.HasSuffix(n, "math.Ceil") || strings.HasSuffix(n, "math.RoundToEven") {
-					nRound++
-					r.Violate("C03.m", fmt.Sprintf("%s|rounds-time#%d", core.FnKey(f), nRound), p.Pos(c.Pos()), "the chain time service rounds a time or duration ("+n+"): in the last part of a slot the current slot/epoch is already reported as the next one, so a start-up or refresh at that moment treats the next slot as under way and never creates its job")
+			})
+			if len(slow) == 0 {
+				continue
+			}
+			for _, c := range clocks {
+				if c.Referrers() == nil {
+					continue
+				}
+				for _, ref := range *c.Referrers() {
+					cmp, ok := ref.(*ssa.BinOp)
+					if !ok {
+						continue
+					}
+					switch cmp.Op {
+					case token.LSS, token.LEQ, token.GTR, token.GEQ, token.EQL, token.NEQ:
+					default:
+						continue
+					}
+					nClock++
+					stale := false
+					var wit []ssa.Instruction
+					for _, sc := range slow {
+						w1 := core.PathQuery{Fn: f, From: c, Target: func(x ssa.Instruction) bool { return x == sc }}.Find()
+						if w1 == nil {
+							continue
+						}
+						w2 := core.PathQuery{Fn: f, From: sc, Target: func(x ssa.Instruction) bool { return x == ssa.Instruction(cmp) }, Avoid: func(x ssa.Instruction) bool { return x == ssa.Instruction(c) }}.Find()
+						if w2 != nil {
+							stale, wit = true, append(w1, w2...)
+						}
+					}
+					r.Check(!stale, "C03.n", fmt.Sprintf("%s|clock-read-after-fetch#%d", core.FnKey(f), nClock), p.Pos(cmp.Pos()), "the clock reading compared here is not older than a beacon node request",
+						"the current slot/epoch compared here was read before a request to a beacon node that lies between the reading and the comparison: when the answer takes a slot or longer, the slot now under way (or slots already past) are treated as future and get jobs", p.WitnessText(wit)...)
+				}
+			}
+		}
+		r.Count("clock readings compared after beacon node requests", nClock)
+	}
+
+	// ---- (o) jobs and the goroutines that set them up outlive the handler that starts them: the context they are
+	// given is not one the handler cancels (or lets time out) when it returns — the scheduler drops a job whose
+	// scheduling context is done ----
+	{
+		nCtx := 0
+		for _, f := range fns {
+			core.EachInstr(f, func(in ssa.Instruction) {
+				var args []ssa.Value
+				what := ""
+				switch x := in.(type) {
+				case *ssa.Go:
+					args, what = x.Call.Args, "a goroutine"
+					if mc, ok := x.Call.Value.(*ssa.MakeClosure); ok {
+						args = append(append([]ssa.Value{}, args...), mc.Bindings...)
+					}
+				case *ssa.Call:
+					if x.Call.IsInvoke() && (x.Call.Method.Name() == "ScheduleJob" || x.Call.Method.Name() == "SchedulePeriodicJob") {
+						args, what = x.Call.Args, "the scheduler"
+					}
+				}
+				for _, a := range args {
+					t := a.Type()
+					if pt, ok := t.(*types.Pointer); ok {
+						t = pt.Elem()
+					}
+					if !strings.HasSuffix(t.String(), "context.Context") {
+						continue
+					}
+					nCtx++
+					d := ds.D(a)
+					var owned func(v ssa.Value, depth int) (bool, string)
+					owned = func(v ssa.Value, depth int) (bool, string) {
+						dv := ds.D(v)
+						if dv.MentionsCall("context.WithTimeout", "context.WithCancel", "context.WithDeadline", "context.WithCancelCause", "context.WithTimeoutCause") {
+							return true, dv.String()
+						}
+						// a parameter (also behind the tracer's Start): look at what the callers pass
+						var prm *ssa.Parameter
+						dv.Any(func(x *core.VD) bool {
+							if q, ok := x.Val.(*ssa.Parameter); ok && strings.HasSuffix(q.Type().String(), "context.Context") && prm == nil {
+								prm = q
+							}
+							return false
+						})
+						if prm != nil && depth < 3 {
+							for i, q := range prm.Parent().Params {
+								if q != prm {
+									continue
+								}
+								for _, o := range p.ParamOrigins(prm.Parent(), i, 0) {
+									if b, w := owned(o, depth+1); b {
+										return true, w
+									}
+								}
+							}
+						}
+						return false, ""
+					}
+					bad, how := owned(a, 0)
+					if bad {
+						d = &core.VD{Kind: "const", Name: how}
+					}
+					r.Check(!bad, "C03.o", fmt.Sprintf("%s|context-outlives-handler#%d", core.FnKey(f), nCtx), p.Pos(in.Pos()), "the context handed to "+what+" is not one this function cancels",
+						"the context handed to "+what+" ("+d.String()+") is cancelled or timed out by this function: jobs scheduled under it after the function has returned are dropped by the scheduler, leaving obtained duties without a job")
 				}
 			})
 		}
-		if nRound == 0 {
-			r.Hold("C03.m", "chaintime|elapsed-time-truncated", "", fmt.Sprintf("%d clock readings in the chain time service, none rounded", nTime))
-		}
-		r.Floor("C03.m clock readings in the chain time service", nTime, 2)
+		r.Floor("C03.o contexts handed to goroutines and the scheduler", nCtx, 20)
 	}
+
+	// ---- (m) the current slot and epoch are the ones that have started: elapsed time is truncated, never rounded
+	// (rounded up, "now" lies before the start of the "current" slot, and the job for that slot is never made) ----
+	checkChainTimeTruncates(p, r, "C03.m", "in the last part of a slot the current slot/epoch is already reported as the next one, so a start-up or refresh at that moment treats the next slot as under way and never creates its job")
 	// handlers refresh the right epochs
 	if f := p.Func(ctrlRel, "Service", "handleCurrentDependentRootChanged"); f != nil {
 		for _, ci := range core.Calls(f, func(c *ssa.CallCommon) bool {
@@ -911,4 +1019,30 @@ func rootedAtEventParam(d *core.VD, f *ssa.Function) bool {
 		return true
 	})
 	return ok && !bad
+}
+
+// checkChainTimeTruncates: the chain time service never rounds a time or duration (Duration.Round, Time.Round,
+// math.Round/Ceil): "current" slots and epochs are the ones that have started.
+func checkChainTimeTruncates(p *core.Prog, r *core.Report, rule, consequence string) {
+	nTime, nRound := 0, 0
+	for _, f := range p.FuncsIn("services/chaintime/standard") {
+		core.EachInstr(f, func(in ssa.Instruction) {
+			c, ok := in.(*ssa.Call)
+			if !ok {
+				return
+			}
+			n := core.CalleeName(&c.Call)
+			if strings.HasSuffix(n, "time.Since") || strings.HasSuffix(n, "time.Now") || strings.HasSuffix(n, "time.Time.Sub") {
+				nTime++
+			}
+			if strings.HasSuffix(n, "time.Duration.Round") || strings.HasSuffix(n, "time.Time.Round") || strings.HasSuffix(n, "math.Round") || strings.HasSuffix(n, "math.Ceil") || strings.HasSuffix(n, "math.RoundToEven") {
+				nRound++
+				r.Violate(rule, fmt.Sprintf("%s|rounds-time#%d", core.FnKey(f), nRound), p.Pos(c.Pos()), "the chain time service rounds a time or duration ("+n+"): "+consequence)
+			}
+		})
+	}
+	if nRound == 0 {
+		r.Hold(rule, "chaintime|elapsed-time-truncated", "", fmt.Sprintf("%d clock readings in the chain time service, none rounded", nTime))
+	}
+	r.Floor(rule+" clock readings in the chain time service", nTime, 2)
 }
